@@ -65,7 +65,17 @@ static void ser(Janet x, int depth) {
             if (janet_struct_proto(st)) { putchar(' '); ser(janet_wrap_struct(janet_struct_proto(st)), depth + 1); }
             break;
         }
-        case JANET_ABSTRACT: unsupported = 1; printf("a %016" PRIx64, bits_of(x)); break;
+        case JANET_ABSTRACT: {
+            /* outside the Lean model; for the boxed integers (types with compare / hash hooks) the payload is the content */
+            void *p = janet_unwrap_abstract(x);
+            const char *nm = janet_abstract_type(p)->name;
+            unsupported = 1;
+            fputs("a ", stdout);
+            for (const char *q = nm; *q; q++) printf("%02x", (unsigned char) *q);
+            if (!strcmp(nm, "core/s64") || !strcmp(nm, "core/u64")) { uint64_t v; memcpy(&v, p, 8); printf(" %016" PRIx64, v); }
+            else printf(" %016" PRIx64, bits_of(x));
+            break;
+        }
         default: printf("r %d %016" PRIx64, (int) janet_type(x), bits_of(x)); break;
     }
 }
@@ -116,7 +126,7 @@ static Janet cfun_nb(int32_t argc, Janet *argv) {
 static const char *PRELUDE =
     "(defn vmops [a b]\n"
     "  (+ (if (= a b) 1 0) (if (< a b) 2 0) (if (<= a b) 4 0) (if (> a b) 8 0) (if (>= a b) 16 0) (if (not= a b) 32 0)\n"
-    "     (* 64 (+ 1 (cmp a b))) (* 256 (+ 1 (compare a b)))\n"
+    "     (* 64 (+ 1 (cmp a b))) (* 256 (+ 1 (if (or (abstract? a) (abstract? b)) (cmp a b) (compare a b))))\n"
     "     (if (apply = [a b]) 1024 0) (if (apply < [a b]) 2048 0) (if (apply <= [a b]) 4096 0)\n"
     "     (if (apply > [a b]) 8192 0) (if (apply >= [a b]) 16384 0) (if (apply not= [a b]) 32768 0)\n"
     "     (if (deep= a b) 65536 0)))\n"
@@ -178,6 +188,7 @@ static void run_literal_shapes(JanetTable *env, JanetArray *pool, const int *ski
                 const char *code = (const char *) janet_unwrap_keyword(rt[k]);
                 const char *op = strchr(code, '/'); op = op ? op + 1 : code;
                 int isnum, num, want = lit_expect(op, c, c2, e, &isnum, &num);
+                if (!strcmp(op, "compare") && janet_checktype(pool->data[i], JANET_ABSTRACT)) continue;   /* polymorphic */
                 forms++;
                 int ok;
                 if (isnum) ok = janet_checktype(rt[k + 1], JANET_NUMBER) && janet_unwrap_number(rt[k + 1]) == (double) num;
@@ -258,6 +269,10 @@ static int run_pool(const char *path) {
                         | 64 * (c + 1) | 256 * (c + 1)
                         | (e ? 1024 : 0) | (c < 0 ? 2048 : 0) | (c <= 0 ? 4096 : 0) | (c > 0 ? 8192 : 0) | (c >= 0 ? 16384 : 0) | (e ? 0 : 32768)
                         | (m & 65536);
+            if (janet_checktype(pool->data[i], JANET_ABSTRACT) || janet_checktype(pool->data[j], JANET_ABSTRACT)) {
+                /* `compare` is polymorphic (int/s64 vs number etc. compare by value): only the primitive operators are checked */
+                m &= ~(long)(3 * 256); want &= ~(long)(3 * 256);
+            }
             if (m != want && !(skip[i] || skip[j])) { char d[64]; snprintf(d, sizeof d, "got=%ld want=%ld", m, want); law("vm-operators", i, j, -1, d); }
         }
         row[n] = 0;
